@@ -1242,19 +1242,32 @@ private:
      typedef typename get_regions_as_sequence<typename Derived::initial_state>::type seq_initial_states;
     // Member functions
 
+    // sets the processing flag for the duration of a scope and resets it on every exit, including exceptional ones
+    struct event_processing_guard
+    {
+        event_processing_guard(bool& flag):m_flag(flag){m_flag = true;}
+        ~event_processing_guard(){m_flag = false;}
+        bool& m_flag;
+    };
     // start the state machine (calls entry of the initial state)
     void start()
     {
          // reinitialize our list of currently active states with the ones defined in Derived::initial_state
          ::boost::mpl::for_each< seq_initial_states, ::boost::msm::wrap<mpl::placeholders::_1> >
                         (init_states(m_states));
-        // call on_entry on this SM
-        (static_cast<Derived*>(this))->on_entry(fsm_initial_event(),*this);
-        ::boost::mpl::for_each<initial_states, boost::msm::wrap<mpl::placeholders::_1> >
-            (call_init<fsm_initial_event>(fsm_initial_event(),this));
+        {
+            // block immediate handling of events generated in the init calls
+            event_processing_guard guard(m_event_processing);
+            // call on_entry on this SM
+            (static_cast<Derived*>(this))->on_entry(fsm_initial_event(),*this);
+            ::boost::mpl::for_each<initial_states, boost::msm::wrap<mpl::placeholders::_1> >
+                (call_init<fsm_initial_event>(fsm_initial_event(),this));
+        }
         // give a chance to handle an anonymous (eventless) transition
         handle_eventless_transitions_helper<library_sm> eventless_helper(this,true);
         eventless_helper.process_completion_event();
+        // handle messages which were generated and blocked in the init calls
+        process_message_queue(this);
     }
 
     // start the state machine (calls entry of the initial state passing incomingEvent to on_entry's)
@@ -1264,13 +1277,19 @@ private:
         // reinitialize our list of currently active states with the ones defined in Derived::initial_state
         ::boost::mpl::for_each< seq_initial_states, ::boost::msm::wrap<mpl::placeholders::_1> >
                         (init_states(m_states));
-        // call on_entry on this SM
-        (static_cast<Derived*>(this))->on_entry(incomingEvent,*this);
-        ::boost::mpl::for_each<initial_states, boost::msm::wrap<mpl::placeholders::_1> >
-            (call_init<Event>(incomingEvent,this));
+        {
+            // block immediate handling of events generated in the init calls
+            event_processing_guard guard(m_event_processing);
+            // call on_entry on this SM
+            (static_cast<Derived*>(this))->on_entry(incomingEvent,*this);
+            ::boost::mpl::for_each<initial_states, boost::msm::wrap<mpl::placeholders::_1> >
+                (call_init<Event>(incomingEvent,this));
+        }
         // give a chance to handle an anonymous (eventless) transition
         handle_eventless_transitions_helper<library_sm> eventless_helper(this,true);
         eventless_helper.process_completion_event();
+        // handle messages which were generated and blocked in the init calls
+        process_message_queue(this);
     }
 
     // stop the state machine (calls exit of the current state)
